@@ -174,13 +174,14 @@ def Worker.notifyResults {V} (w : Worker V) (awaiter : Nat) :
     | .ok w' => w'.notifyResults awaiter rest true
     | .error e => .error e
 
-/-- `update_await_results`: every included result is notified; if none was included the awaiter is
-    woken by hand (`mark_active`). -/
+/-- `update_await_results`: every included result is notified; then ANY await answer — even one
+    without results, or whose only results concern a target the awaiter no longer waits for — wakes a
+    parked select (`wake_selecting`; fixes c08a680: only a select, never a process waiting for a spawn
+    reply, and 755cedc: always, not only when no result was included). -/
 def Worker.updateAwaitResults {V} (w : Worker V) (awaiter : Nat) (results : AMap (Option (WireRes V))) :
     Except IErr (Worker V) :=
   match w.notifyResults awaiter results false with
-  | .ok (w', true) => .ok w'
-  | .ok (w', false) => .ok { w' with ex := w'.ex.markActive awaiter }
+  | .ok (w', _) => .ok { w' with ex := w'.ex.wake awaiter }
   | .error e => .error e
 
 /-- `query_and_await` for one target: answer with the result if the target's *status* is completed,
